@@ -245,6 +245,87 @@ Proof.
   - cbn [fst]. rewrite map_map. apply map_ext. reflexivity.
 Qed.
 
+(* ---- distinct objects stay distinct members -------------------------------------------------- *)
+Fixpoint nodupb (l : list Z) : bool :=
+  match l with [] => true | x :: t => negb (existsb (Z.eqb x) t) && nodupb t end.
+
+(* the history adds only objects that are not members yet and assigns member lists without repeats *)
+Definition op_fresh (g : group) (o : op) : bool :=
+  match o with
+  | OAdd id => negb (existsb (Z.eqb id) (map mid g))
+  | OSetMembers _ ids => nodupb ids
+  | _ => true
+  end.
+
+Fixpoint hist_fresh (c : gcls) (e : env) (g : group) (ops : list op) : bool :=
+  match ops with
+  | [] => true
+  | o :: t => op_fresh g o && hist_fresh c e (fst (step c e g o)) t
+  end.
+
+Lemma existsb_eqb_false x l : existsb (Z.eqb x) l = false -> ~ In x l.
+Proof.
+  intros H I. assert (E : existsb (Z.eqb x) l = true) by (apply existsb_exists; exists x; split; [exact I | apply Z.eqb_refl]).
+  congruence.
+Qed.
+
+Lemma nodupb_NoDup l : nodupb l = true -> NoDup l.
+Proof.
+  induction l as [|x l IH]; cbn [nodupb]; intro H; constructor.
+  - apply andb_true_iff in H as [H _]. apply negb_true_iff in H. now apply existsb_eqb_false.
+  - apply IH. now apply andb_true_iff in H as [_ H].
+Qed.
+
+Lemma NoDup_snoc (l : list Z) x : NoDup l -> ~ In x l -> NoDup (l ++ [x]).
+Proof.
+  induction l as [|a l IH]; intros N H; cbn [app].
+  - constructor; [intros [] | constructor].
+  - inversion N as [|? ? Na Nl]; subst. constructor.
+    + rewrite in_app_iff. intros [I|[E|[]]]; [contradiction | subst; apply H; now left].
+    + apply IH; [exact Nl | intro I; apply H; now right].
+Qed.
+
+Lemma member_for_id e g id m : member_for e g id = Some m -> mid m = id.
+Proof.
+  unfold member_for. destruct (find _ g) as [m0|] eqn:F.
+  - intro E. injection E as <-. cbn. apply find_some in F as [_ F]. now apply Z.eqb_eq in F.
+  - unfold fresh. destruct (zlookup id (e_pool e)) as [[ty st]|]; [|discriminate].
+    intro E. now injection E as <-.
+Qed.
+
+Lemma members_for_ids e g : forall ids g', members_for e g ids = Some g' -> map mid g' = ids.
+Proof.
+  induction ids as [|id t IH]; intros g' M; cbn [members_for] in M.
+  - now injection M as <-.
+  - destruct (member_for e g id) as [m|] eqn:E1; [|discriminate].
+    destruct (members_for e g t) as [r|] eqn:E2; [|discriminate].
+    injection M as <-. cbn [map]. now rewrite (member_for_id _ _ _ _ E1), (IH r).
+Qed.
+
+Lemma step_nodup c e g o : NoDup (map mid g) -> op_fresh g o = true -> NoDup (map mid (fst (step c e g o))).
+Proof.
+  intros N Fr. destruct (changes_membership o) eqn:Ch.
+  - destruct o as [id|k ids|a v|a|k| |]; try discriminate; cbn [step op_fresh] in *.
+    + destruct (type_of e id) as [ty|]; [|exact N].
+      destruct (fresh e id) as [m|] eqn:F; [|exact N].
+      destruct (accepts c ty); [|exact N]. cbn [fst]. rewrite map_app. cbn [map].
+      assert (mid m = id) as ->.
+      { unfold fresh in F. destruct (zlookup id (e_pool e)) as [[ty' st]|]; [|discriminate]. now injection F as <-. }
+      apply NoDup_snoc; [exact N|]. apply negb_true_iff in Fr. now apply existsb_eqb_false.
+    + destruct (negb _); [exact N|]. destruct (negb (all_accepted c e ids)); [exact N|].
+      destruct (members_for e g ids) as [g'|] eqn:M; [|exact N]. cbn [fst].
+      rewrite (members_for_ids _ _ _ _ M). now apply nodupb_NoDup.
+  - now rewrite membership_stable.
+Qed.
+
+Lemma history_nodup c e ops : forall g, NoDup (map mid g) -> hist_fresh c e g ops = true ->
+  NoDup (map mid (exec c e g ops)).
+Proof.
+  induction ops as [|o ops IH]; intros g N H; [exact N|].
+  cbn [hist_fresh] in H. apply andb_true_iff in H as [H1 H2].
+  rewrite exec_cons. apply IH; [now apply step_nodup | exact H2].
+Qed.
+
 (* ---- observing ------------------------------------------------------------------------------------ *)
 Definition observed_once (m m' : member) : Prop :=
   mobs m' = mobs m + 1 /\ mid m' = mid m /\ mtype m' = mtype m /\ mparent m' = mparent m /\ mstore m' = mstore m.
@@ -257,6 +338,17 @@ Proof.
   cbn [step fst snd]. split; [reflexivity|]. split.
   - induction g; cbn [map]; constructor; auto. repeat split.
   - intros N m I. apply NoDup_count_occ'; [exact N | now apply in_map].
+Qed.
+
+Lemma observe_once_in_histories c e ops : hist_fresh c e [] ops = true ->
+  let g := exec c e [] ops in
+  NoDup (map mid g)
+  /\ snd (step c e g OObserve) = RObs (map mid g)
+  /\ forall m, In m g -> count_occ Z.eq_dec (map mid g) (mid m) = 1%nat.
+Proof.
+  intros H g.
+  assert (N : NoDup (map mid g)) by (apply history_nodup; [constructor | exact H]).
+  split; [exact N|]. split; [reflexivity|]. now apply (observe_once c e g).
 Qed.
 
 (* ---- BolometerCamera: retrieval by slice is NOT provided by the code ------------------------------- *)
